@@ -33,6 +33,9 @@ pub fn run(ctx: &mut Ctx) {
             // more than 2^24 bytes of tile data behind a non-zero start position
             ctx.count("archives_above_16_mib");
             gen::gen_huge_tiles(&mut rng, codec, (1 << 24) + 4321)
+        } else if i % 20 == 13 && (i / 20) % 2 == 0 {
+            // a leaf-spilling archive for the start positions around 2^32
+            gen::gen_logical(&mut rng, SizeClass::Spill, codec)
         } else {
             gen::gen_logical(&mut rng, class, codec)
         };
@@ -51,6 +54,25 @@ pub fn run(ctx: &mut Ctx) {
             }
             _ => rng.range(1, 1 << 20),
         };
+        // start positions around and beyond 2^32 (leaf-spilling archives among them): a stream whose first `base` bytes are a
+        // hole without storage; everything below is judged relative to `base`
+        let far = i % 20 == 13;
+        let (p, base): (u64, u64) = if far {
+            let p = match rng.below(4) {
+                0 => (1u64 << 32) - rng.range(1, 126), // the header straddles 2^32
+                1 => (1u64 << 32) - 127,
+                2 => (1u64 << 32) + rng.below(1 << 20),
+                _ => (1u64 << 33) + rng.below(1 << 30),
+            };
+            (p, p - 1000)
+        } else {
+            (p, 0)
+        };
+        if far {
+            ctx.count("start_positions_at_or_beyond_4_gib");
+        }
+        let p_abs = p;
+        let p = p - base;
         // pre-fill: empty, shorter than P, exactly P, or long enough to exceed the archive
         let prefill_len: usize = match rng.below(5) {
             0 => 0,
@@ -62,7 +84,7 @@ pub fn run(ctx: &mut Ctx) {
         let prefill: Vec<u8> = (0..prefill_len).map(sentinel).collect();
         let asyncm = rng.chance(1, 2);
         let api = if asyncm { "PMTiles::to_async_writer" } else { "PMTiles::to_writer" };
-        let mat = json!({"archive": l.describe(), "start_position": p, "prefill_len": prefill_len, "api": api});
+        let mat = json!({"archive": l.describe(), "start_position": p_abs, "prefill_len": prefill_len, "api": api, "stream_hole_below": base});
         // a third of the streams accept only part of most writes (the property holds for every Write + Seek)
         let short_writes = i % 3 == 1 && l.tiles.values().map(|c| c.len()).sum::<usize>() < (4 << 20);
         let wsched = match rng.below(4) {
@@ -74,27 +96,34 @@ pub fn run(ctx: &mut Ctx) {
         if short_writes {
             ctx.count("streams_with_short_writes");
         }
+        let mut below_base = 0u64;
         let (res, data, pos) = if asyncm {
             let mut s = AInst::new(prefill.clone());
-            s.c.pos = p;
+            s.c.base = base;
+            s.c.max_len = u64::MAX >> 2;
+            s.c.pos = p_abs;
             if short_writes {
                 s.c.wsched = wsched.clone();
             }
             s.pend = Pend::Random(ctx.rng("c18.pend", i), 1, 4);
             let pm = l.build_async();
             let r = guard(|| block_on(pm.to_async_writer(&mut s)));
-            (r, s.c.data, s.c.pos)
+            below_base = s.c.below_base_writes;
+            (r, s.c.data, s.c.pos.saturating_sub(base))
         } else {
             let mut s = Inst::new(prefill.clone());
-            s.c.pos = p;
+            s.c.base = base;
+            s.c.max_len = u64::MAX >> 2;
+            s.c.pos = p_abs;
             if short_writes {
                 s.c.wsched = wsched.clone();
             }
             let pm = l.build();
             let r = guard(|| pm.to_writer(&mut s));
-            (r, s.c.data, s.c.pos)
+            below_base = s.c.below_base_writes;
+            (r, s.c.data, s.c.pos.saturating_sub(base))
         };
-        let spill = class == SizeClass::Spill;
+        let spill = class == SizeClass::Spill || l.class.starts_with("Spill");
         ctx.case(hash_u64s(&[l.fingerprint(), p, prefill_len as u64, u64::from(asyncm)]), p > 0);
         match res {
             Err(pn) => {
@@ -114,6 +143,9 @@ pub fn run(ctx: &mut Ctx) {
             let want = if j < prefill_len { sentinel(j) } else { 0 };
             data.get(j).copied() == Some(want) || (j >= data.len() && j >= prefill_len)
         });
+        if below_base > 0 {
+            ctx.violation(api, "prefix-modified", "bytes before the start position were modified", &format!("writing at position {p_abs} wrote {below_base} bytes more than 1000 bytes before the start position"), mat.clone());
+        }
         if !before_ok {
             let at = (0..p as usize).find(|j| data.get(*j).copied() != Some(if *j < prefill_len { sentinel(*j) } else { 0 })).unwrap_or(0);
             ctx.violation(
